@@ -293,6 +293,10 @@ func (w *lwalk) stmt(s ast.Stmt) {
 										countIdx = idx
 									}
 								}
+								// for n := int(r.ReadX()); n > 0; n-- : the counter itself holds the read count
+								if idx, ok := w.lenVars[iv]; ok && countIdx < 0 {
+									countIdx = idx
+								}
 							}
 						}
 					}
